@@ -148,19 +148,20 @@ func c01Body(r *Run) {
 	r.Describe("pipeline: %d levels, %d handlers, fanOutAt=%d fanInAt=%d, %d source messages; GoChannel{buffer:%d persistent:%v blocking:%v} shared=%v", nLevels, len(stages), fanOutAt, fanInAt, nMsgs, cfg.OutputChannelBuffer, cfg.Persistent, cfg.BlockPublishUntilSubscriberAck, shared)
 	r.Describe("fault script: %s", strings.Join(fd, " "))
 
-	consumedOf := map[*message.Message]*c1Inv{}
+	// output UUID -> the (latest) invocation that returned it; a router may hand the publisher the returned objects or equal copies
+	consumedOf := map[string]*c1Inv{}
 	for _, s := range stages {
 		s := s
 		s.pub.Hook = func(c *PubCall) {
 			for _, m := range c.Msgs {
-				iv := consumedOf[m]
+				iv := consumedOf[m.UUID]
 				if iv == nil {
 					r.Fail("C01.R2", "a stage published a message no handler invocation produced", "%s published %s", s.name, m.UUID)
 					continue
 				}
 				iv.call = c
-				if rawClosed(iv.msg.Acked()) || rawClosed(iv.msg.Nacked()) {
-					r.Fail("C01.R3", "a stage settled its consumed message before the next topic accepted the output", "%s: consumed %s acked=%v nacked=%v inside Publish", s.name, iv.msg.UUID, rawClosed(iv.msg.Acked()), rawClosed(iv.msg.Nacked()))
+				if rawClosed(iv.msg.Acked()) {
+					r.Fail("C01.R3", "a stage settled its consumed message before the next topic accepted the output", "%s: consumed %s acked inside Publish", s.name, iv.msg.UUID)
 				}
 			}
 		}
@@ -184,7 +185,7 @@ func c01Body(r *Run) {
 			for _, b := range branches {
 				o := message.NewMessage(m.UUID+"/"+s.name+b, m.Payload)
 				o.Metadata.Set("src", m.Metadata.Get("src"))
-				consumedOf[o] = iv
+				consumedOf[o.UUID] = iv
 				outs = append(outs, o)
 			}
 			return outs, nil
